@@ -2,6 +2,7 @@ import OccaModel.Hash
 import OccaModel.CacheKey
 import OccaModel.CacheKeyExact
 import OccaModel.DepHash
+import OccaModel.DepHashExact
 import OccaModel.Proto
 /-
 drv_cache: line-protocol driver of the kernel-cache models (C06 key construction, C07 dependency
@@ -22,9 +23,6 @@ open Occa Occa.Hash Occa.Proto Occa.CacheKey Occa.DepHash
 def strOfBytes (bs : List Nat) : String := String.ofList (bs.map Char.ofNat)
 def unhexStr (s : String) : Option String := (unhex s).map strOfBytes
 def hexStr (s : String) : String := hex (bytesOf s)
-
-def exactDEnv (mode : String) (dev : Lanes) : DEnv Lanes String String :=
-  { exactEnv (mode == "openmp") dev with dir := shortStr, incl := scanIncludes, depth := 100000 }
 
 partial def parseVal : List String → Option (J × List String)
   | "N" :: r => some (.null, r)
@@ -81,7 +79,7 @@ structure DS where
   files : List (String × String) := []
   cache : Cache Lanes String Bin := []
 
-def DS.env (s : DS) : DEnv Lanes String String := exactDEnv s.mode s.dev
+def DS.env (s : DS) : DEnv Lanes String String := exactDEnv (s.mode == "openmp") s.dev 100000
 def DS.fs (s : DS) : FS := fun p => s.files.lookup p
 
 def showBin (e : DEnv Lanes String String) (x : Bin) : String :=
